@@ -7,7 +7,7 @@ template's syntax tree:
   block one level deeper; a dedent closes blocks; any other indentation is an error);
 * `execList` executes a statement list.  It knows exactly the statement forms the generator emits:
   `_tt_append(b'…')` (the bytes literal is decoded again), `_tt_tmp = <expr>`, the two conversion lines
-  `if isinstance(…): …` / `else: …`, `_tt_tmp = _tt_utf8(f(_tt_tmp))`, `_tt_append(_tt_tmp)`, `pass`,
+  `if isinstance(…): …` / `else: …`, `_tt_tmp = _tt_utf8(f(_tt_tmp))`, `_tt_append(_tt_tmp)`, `pass`, `break`, `continue`, `x = e`,
   `if c:` / `elif c:` / `else:` blocks, `for x in e:` blocks with `else:`, and the prologue/epilogue of
   `def _tt_execute():`.  Expressions, truthiness and the function pool are those of `Spec.lean`
   (`evalExpr`, `Val.truthy`, `applyFn`): the theorem is about *structure* — blocks, order, buffer, escaping.
@@ -107,7 +107,9 @@ inductive SKind where
   | pass | initBuf | bindAppend | retJoin | appendTmp | convIf | convElse
   | appendLit (q : Nat) (body : Str)
   | assignTmp (e : Str)
-  | bad
+  | brk | cont
+  /-- any other statement; understood if it is an assignment `x = e` of the Spec's statement pool (`{% set %}`) -/
+  | other
   deriving DecidableEq, Repr, Inhabited
 
 def classify (c : Str) : SKind :=
@@ -116,7 +118,7 @@ def classify (c : Str) : SKind :=
   | none =>
     match dropPrefix? (/-"_tt_append("-/ [95, 116, 116, 95, 97, 112, 112, 101, 110, 100, 40] : List Nat) c with
     | some (98 :: q :: body) => .appendLit q body
-    | some r => if r == (/-"_tt_tmp)"-/ [95, 116, 116, 95, 116, 109, 112, 41] : List Nat) then .appendTmp else .bad
+    | some r => if r == (/-"_tt_tmp)"-/ [95, 116, 116, 95, 116, 109, 112, 41] : List Nat) then .appendTmp else .other
     | none =>
       if c == (/-"pass"-/ [112, 97, 115, 115] : List Nat) then .pass
       else if c == (/-"_tt_buffer = []"-/ [95, 116, 116, 95, 98, 117, 102, 102, 101, 114, 32, 61, 32, 91, 93] : List Nat) then .initBuf
@@ -124,7 +126,9 @@ def classify (c : Str) : SKind :=
       else if c == (/-"return _tt_utf8('').join(_tt_buffer)"-/ [114, 101, 116, 117, 114, 110, 32, 95, 116, 116, 95, 117, 116, 102, 56, 40, 39, 39, 41, 46, 106, 111, 105, 110, 40, 95, 116, 116, 95, 98, 117, 102, 102, 101, 114, 41] : List Nat) then .retJoin
       else if c == (/-"if isinstance(_tt_tmp, _tt_string_types): _tt_tmp = _tt_utf8(_tt_tmp)"-/ [105, 102, 32, 105, 115, 105, 110, 115, 116, 97, 110, 99, 101, 40, 95, 116, 116, 95, 116, 109, 112, 44, 32, 95, 116, 116, 95, 115, 116, 114, 105, 110, 103, 95, 116, 121, 112, 101, 115, 41, 58, 32, 95, 116, 116, 95, 116, 109, 112, 32, 61, 32, 95, 116, 116, 95, 117, 116, 102, 56, 40, 95, 116, 116, 95, 116, 109, 112, 41] : List Nat) then .convIf
       else if c == (/-"else: _tt_tmp = _tt_utf8(str(_tt_tmp))"-/ [101, 108, 115, 101, 58, 32, 95, 116, 116, 95, 116, 109, 112, 32, 61, 32, 95, 116, 116, 95, 117, 116, 102, 56, 40, 115, 116, 114, 40, 95, 116, 116, 95, 116, 109, 112, 41, 41] : List Nat) then .convElse
-      else .bad
+      else if c == (/-"break"-/ [98, 114, 101, 97, 107] : List Nat) then .brk
+      else if c == (/-"continue"-/ [99, 111, 110, 116, 105, 110, 117, 101] : List Nat) then .cont
+      else .other
 
 inductive HKind where
   | ifc (cond : Str) | elifc (cond : Str) | elsec
@@ -234,7 +238,16 @@ def execSimple (mode : Mode) (c : Str) (st : PS) : (PS × PSig) × Mode :=
       | .unset => (pyNameError st, .none)
     | .chain true false => ((st, .normal), .none)
     | _ => (pySyntaxError st, .none)
-  | .bad => (pyUnsupported st, .none)
+  | .brk => ((st, .brk), .none)
+  | .cont => ((st, .cont), .none)
+  | .other =>
+    -- `x = e` (`{% set x = e %}`)
+    match splitEq c with
+    | some (x, e) =>
+      match evalExpr st.env e with
+      | .ok v => (({ st with env := st.env.set x v }, .normal), .none)
+      | .error exc => ((st, .raise exc), .none)
+    | none => (pyUnsupported st, .none)
 
 /-- `for x in items:` with the denotation of the body -/
 def loopFor (body : PS → PS × PSig) (x : Str) : List Atom → PS → PS × PSig
